@@ -35,7 +35,10 @@ PROPS = {
     "C18": {
         "module": "Cuke.Props.C18",
         "namespace": "Cuke.C18",
-        "families": [("retry.resolve", 10000, 300000)],
+        "families": [("retry.resolve", 10000, 300000), ("sched.run", 1000, 40000)],
+        # the last clause (CLI --concurrency overrides, --fail-fast adds to the builder settings) is decided by how the
+        # scheduler behaves: classes K (slot accounting incl. limit resolution) and FF of the scheduler runs
+        "segments": {"sched.run": [1, 4]},
         "modelled_not_verified": [
             "humantime::parse_duration (oracle table for every parenthesised substring of every tag)",
         ],
@@ -43,7 +46,9 @@ PROPS = {
     "C13": {
         "module": "Cuke.Props.C13",
         "namespace": "Cuke.C13",
-        "families": [("pipe.comb", 6000, 150000)],
+        # exit.run: the same combinators reached through the `Cucumber` builder methods (repeat_skipped / repeat_failed /
+        # repeat_if / fail_on_skipped / fail_on_skipped_with in src/cucumber.rs)
+        "families": [("pipe.comb", 6000, 150000), ("exit.run", 3000, 80000)],
         "modelled_not_verified": [
             "custom predicates/filters are drawn from a small closed family (always/never/parity/...) on both sides",
             "recording leaf writers and the dynamic boxing adapter (DynW) are harness code",
@@ -125,8 +130,9 @@ PROPS = {
         "module": "Cuke.Props.C05",
         "namespace": "Cuke.C05",
         "families": [("sched.run", 1000, 40000), ("sched.lazy", 600, 30000), ("attempt.run", 800, 30000)],
-        "segments": {"sched.run": [2, 0, 9], "attempt.run": [2]},
-        "skip_prefixes": ["mon.c09", "mon.c10"],
+        # attempt.run segment 1 = the callback log (World ids): "each attempt starts from a freshly created World"
+        "segments": {"sched.run": [2, 0, 9], "attempt.run": [2, 1]},
+        "skip_prefixes": ["mon.c10"],
         "segment_names": ['R', 'Q', 'c05'],
         "modelled_not_verified": ["futures crate: FuturesUnordered, mpsc channels, join/select (the plumbing is checked by comparing sent and received event sequences)", "the async executor (hand-polled by the harness) and Instant / thread::sleep (clock readings are environment inputs of the model)", "HashMap iteration order at finish_all (model: any order inside the rule group and the feature group)", "the retry delay is checked against two clock readings bracketing get(); wall-clock sleeping is runtime behaviour"],
     },
